@@ -12,6 +12,7 @@ import operator
 import numpy as np
 
 from ..core import import_library
+from ..env import Held
 from ..probe import Probe, Reach
 
 WORKERS = {"quick": 1, "thorough": 16}
@@ -353,6 +354,17 @@ def drive(ctx, fl, e, vals, acts, weights, instances=None, form="float", route="
         except Exception as ex:  # a valid constructed block must be processable
             ctx.violation(f"{kind}: processing a valid rule block raised {type(ex).__name__}", {"method": kind, "params": list(params), "inputs": list(vals)}, "no error", repr(ex))
             continue
+        if HELD:
+            # what the previous activation left for a caller to read (degrees, flags, output values) is that caller's to keep:
+            # this activation must not have rewritten those objects
+            held = HELD[0]
+            held.check(f"the next activation ({kind})")
+            held.clear()
+            for rule in rb.rules:
+                held.keep("Rule.triggered", rule.triggered)
+                held.keep("Rule.activation_degree", rule.activation_degree)
+            for ov in e.output_variables:
+                held.keep("OutputVariable.value", ov.value)
         # the degrees are known by construction: weight x input (exact on the dyadic alphabet)
         for k, rule in enumerate(rb.rules):
             if rule.is_loaded() and kind != "Proportional":
@@ -362,8 +374,12 @@ def drive(ctx, fl, e, vals, acts, weights, instances=None, form="float", route="
                     ctx.violation("activation degree differs from weight x input in the constructed block", {"rule": k, "method": kind, "input": vals[k], "weight": weights[k]}, exp, got)
 
 
+HELD = []
+
+
 def run(ctx):
     fl = import_library()
+    HELD[:] = [Held(ctx)]
     maxn = ctx.scale(3, 5)
     ctx.rule = (
         f"exhaustive: rule blocks of 1..{maxn} rules, degrees over the alphabet {{0, 0.25, 0.5, 1}} (ties and zeros arise), every activation method "
@@ -420,6 +436,15 @@ def run(ctx):
                 drive(ctx, fl, e, vals, rnd.sample(acts, 4), weights, form=rnd.choice(FORMS), route=rnd.choice(ROUTES), churn=rnd)
             if i < 2:
                 ctx.sample("random", {"rules": n, "weights": weights, "enabled": enabled, "loaded": loaded, "inputs": vals, "methods": [[k, list(p)] for k, p in acts[:4]]})
+        # blocks in which every positive degree is tiny (their sum, and its reciprocal, at the ends of the double range)
+        for i, rnd in ctx.cases("tiny degrees", ctx.scale(40, 800)):
+            n = rnd.randrange(2, 6)
+            weights = [1] * n
+            e = make_engine(fl, n, weights, [True] * n, [True] * n)
+            vals = [rnd.choice([0.0, 5e-324, 1e-323, 1e-320, 1e-310, 3e-309, 2e-308]) for _ in range(n)]
+            acts = [("Proportional", ()), ("General", ()), ("Highest", (1,)), ("Lowest", (2,)), ("First", (1, 0.0)), ("Threshold", (">", 0.0))]
+            drive(ctx, fl, e, vals, acts, weights, form=rnd.choice(FORMS))
+            ctx.hit("workload:every positive degree is subnormal or next to it")
         # one list of rule objects handed to two rule blocks with methods and operators of their own
         for i, rnd in ctx.cases("shared rules", ctx.scale(30, 1500)):
             n = rnd.randrange(2, 6)
@@ -483,6 +508,7 @@ def run(ctx):
             ctx.require(f"batch:{m}")
     for m in ("Highest", "Lowest", "First", "Last"):
         ctx.require(f"piece:{m}:tie", f"piece:{m}:n>eligible", f"piece:{m}:n<eligible", f"piece:{m}:disabled-rule", f"piece:{m}:unloaded-rule")
+    ctx.require("workload:every positive degree is subnormal or next to it", "law:values handed out earlier are left alone")
     ctx.require("piece:Threshold:threshold-equals-a-degree", "piece:First:threshold-equals-a-degree", "event:activation instances reused", "piece:block without loaded rules", "event:a rule that took part in an activation is unloaded", "piece:NaN activation degree", "workload:rule objects shared by two blocks", "workload:block of more than 64 rules")
     for r in ROUTES:
         ctx.require("route:" + r)
